@@ -892,6 +892,7 @@ func rulesC14(c *Ctx) {
 			c.Check(!reach, "middleware:reject-then-return", hl, hg.Node(ev), "after writing the rejection the handler is not invoked")
 		}
 	})
+	ruleNoSilent200(c, "R-C14-4", []string{"auth"}, nil, 2, 4)
 }
 
 // isCompound: &&, || and ! nodes (their operands are listed as atoms of their own).
